@@ -21,6 +21,7 @@ import (
 //	copy_error_fails_download           retrieveAndSaveFile: an error of io.Copy is what the copying step returns, and the download ends there
 //	failed_copy_removes_temp            ... after os.Remove of the temporary file
 //	copy_precedes_advertise             the copying step stands before paths.AdvertiseCachedFile
+//	copy_goes_into_temporary_file       io.Copy's destination is the os.CreateTemp file, and AdvertiseCachedFile links <that file>.Name() under another name
 //
 // A shape that is not recognised is a broken tie (fail), never a guess.
 func genC20() {
@@ -422,6 +423,49 @@ func genC20() {
 				return true
 			})
 		}
+		// where the copy goes: <t>, err := os.CreateTemp(..); io.Copy(<t>, ..); AdvertiseCachedFile(<t>.Name(), <other>) —
+		// the bytes go into a file that carries a temporary name until it is advertised under another one
+		tempVar := ""
+		ast.Inspect(fd.Body, func(n ast.Node) bool {
+			if as, ok := n.(*ast.AssignStmt); ok && len(as.Rhs) == 1 && len(as.Lhs) >= 1 && tempVar == "" {
+				if ce, ok := as.Rhs[0].(*ast.CallExpr); ok {
+					if sel, ok := ce.Fun.(*ast.SelectorExpr); ok && sel.Sel.Name == "CreateTemp" {
+						if id, ok := as.Lhs[0].(*ast.Ident); ok {
+							tempVar = id.Name
+						}
+					}
+				}
+			}
+			return true
+		})
+		copyIntoTemp, advertiseTemp := false, false
+		ast.Inspect(fd.Body, func(n ast.Node) bool {
+			ce, ok := n.(*ast.CallExpr)
+			if !ok {
+				return true
+			}
+			sel, ok := ce.Fun.(*ast.SelectorExpr)
+			if !ok {
+				return true
+			}
+			if id, ok := sel.X.(*ast.Ident); ok && id.Name == "io" && sel.Sel.Name == "Copy" && len(ce.Args) == 2 {
+				if dst, ok := ce.Args[0].(*ast.Ident); ok && tempVar != "" && dst.Name == tempVar {
+					copyIntoTemp = true
+				}
+			}
+			if sel.Sel.Name == "AdvertiseCachedFile" && len(ce.Args) == 2 {
+				if c0, ok := ce.Args[0].(*ast.CallExpr); ok && len(c0.Args) == 0 {
+					if s0, ok := c0.Fun.(*ast.SelectorExpr); ok && s0.Sel.Name == "Name" {
+						if id, ok := s0.X.(*ast.Ident); ok && tempVar != "" && id.Name == tempVar {
+							advertiseTemp = exprText(ce.Args[1]) != exprText(ce.Args[0])
+						}
+					}
+				}
+			}
+			return true
+		})
+		g.def("copy_goes_into_temporary_file", "bool", b(copyIntoTemp && advertiseTemp),
+			fmt.Sprintf("retrieveAndSaveFile: io.Copy writes into the os.CreateTemp file (%v) and that file's name is what AdvertiseCachedFile links under the final name (%v)", copyIntoTemp, advertiseTemp))
 		if step == nil || advertise == nil {
 			fail("%s: retrieveAndSaveFile: the step that copies the response into the temporary file (io.Copy) or the call of paths.AdvertiseCachedFile was not found", crel)
 		} else {
